@@ -17,6 +17,7 @@ EXTENDS TcpclObs
 CONSTANTS KaCfg, IdleCfg,   \* [Ends -> Nat] configured keepalive / idle seconds
           MaxClock, MaxSends,
           Silent,           \* ends whose implementation is replaced by a peer that never reads or answers
+          UserTerms,        \* ends whose user may ask for termination at any moment
           Dev
 
 VARIABLES clock, kaDue, idleDue, inTerm, gotTerm, isOpen, flight, nSends, nextId, pend, allOk
@@ -64,10 +65,23 @@ UserSend(e) ==
   /\ nSends' = nSends + 1 /\ nextId' = [nextId EXCEPT ![e] = @ + 1]
   /\ UNCHANGED <<clock, inTerm, gotTerm, isOpen, allOk, ovars>>
 
+\* (deviation keepalive_postpones_closing: the KEEPALIVE of a terminating endpoint re-arms its idle timer like any
+\* other transmission, so with 0 < keepalive < idle time it never closes on a silent peer)
 KaFire(e) ==
   /\ Idle /\ Real(e) /\ isOpen[e] /\ kaDue[e] = clock
-  /\ Send(e, Base("KA", 1), <<EvCb(e, "ka")>>)
+  /\ pend' = <<EvCb(e, "ka"), EvWire(e, Base("KA", 1))>>
+  /\ kaDue' = [kaDue EXCEPT ![e] = Arm(@, MinKa)]
+  /\ idleDue' = (IF inTerm[e] /\ "keepalive_postpones_closing" \notin Dev THEN idleDue
+                 ELSE [idleDue EXCEPT ![e] = Arm(@, IdleCfg[e])])
+  /\ flight' = [flight EXCEPT ![e] = Append(@, Base("KA", 1))]
   /\ UNCHANGED <<clock, inTerm, gotTerm, isOpen, nSends, nextId, allOk, ovars>>
+
+\* the user asks the session to terminate
+UserTerm(e) ==
+  /\ Idle /\ Real(e) /\ isOpen[e] /\ ~inTerm[e] /\ e \in UserTerms
+  /\ Send(e, Base("TERM", 3), <<EvCb(e, "terminate"), [a |-> "UserTerm", e |-> e, n |-> "", t |-> T, i |-> [ok |-> TRUE]]>>)
+  /\ inTerm' = [inTerm EXCEPT ![e] = TRUE]
+  /\ UNCHANGED <<clock, gotTerm, isOpen, nSends, nextId, allOk, ovars>>
 
 IdleFire(e) ==
   /\ Idle /\ Real(e) /\ isOpen[e] /\ idleDue[e] = clock
@@ -142,7 +156,7 @@ Drain ==
   /\ pend' = Tail(pend)
   /\ UNCHANGED <<clock, kaDue, idleDue, inTerm, gotTerm, isOpen, flight, nSends, nextId>>
 
-Next == Drain \/ Tick \/ \E e \in Ends : UserSend(e) \/ KaFire(e) \/ IdleFire(e) \/ Deliver(e) \/ Eof(e)
+Next == Drain \/ Tick \/ \E e \in Ends : UserSend(e) \/ UserTerm(e) \/ KaFire(e) \/ IdleFire(e) \/ Deliver(e) \/ Eof(e)
 
 RealSeq == IF Silent = {} THEN <<"A", "P">> ELSE IF Silent = {"A"} THEN <<"P">> ELSE <<"A">>
 Init ==
